@@ -232,8 +232,8 @@ def replay_store_switch_times(obligation, model, meta):
             scenarios.append(({'A': ta, 'B': tb}, t0))
     for times, t0 in scenarios:
         mdls = OrderedDict((k, SimpleNamespace(class_name=k, get_times=(lambda v=v: [np.array(v)] if v else []))) for k, v in times.items())
-        stub = SimpleNamespace(options={}, dae=SimpleNamespace(t=t0), switch_dict=OrderedDict(), models=mdls,
-                               switch_times=np.array([]), n_switches=0)
+        from contracts.packutil import Stub
+        stub = Stub(_cls=System, options={}, dae=SimpleNamespace(t=t0), switch_dict=OrderedDict(), models=mdls, switch_times=np.array([]), n_switches=0)
         try:
             ret = System.store_switch_times(stub, mdls, eps=eps)
         except Exception as e:      # noqa
